@@ -300,11 +300,16 @@ class DirectCollocation(SamplingMethod):
                     NUM = vertcat(DM(range(10)).T, DM(range(10,20)).T)
                     expr_integrator = ca.hcat([self.eval_at_integrator(stage, expr, k, i) for k in list(range(self.N)) for i in range(self.M)]+[self.eval_at_control(stage, expr, -1)]) # HOT line
                     expr_integrator_root = ca.hcat([self.eval_at_integrator_root(stage, expr, k, i, j) for k in list(range(self.N)) for i in range(self.M) for j in range(self.degree) ]) # HOT line
-                    value_integrator = DM(opti.debug.value(expr_integrator, opti_initial))
-                    value_integrator_root = DM(opti.debug.value(expr_integrator_root, opti_initial))
+                    value_integrator = ca.reshape(DM(opti.debug.value(expr_integrator, opti_initial)), expr_integrator.shape) # one column per point
+                    value_integrator_root = ca.reshape(DM(opti.debug.value(expr_integrator_root, opti_initial)), expr_integrator_root.shape)
+                    # Scalar expression for a vector-valued state: repeated to fit
+                    if value_integrator.shape[0]==1 and var.is_column() and not var.is_scalar():
+                        value_integrator = repmat(value_integrator, var.shape[0], 1)
+                        value_integrator_root = repmat(value_integrator_root, var.shape[0], 1)
                 else:
                     expr = ca.hcat([self.eval_at_control(stage, expr, k) for k in list(range(self.N))+[-1]]) # HOT line
-                    value = DM(opti.debug.value(expr, opti_initial))
+                    value = ca.reshape(DM(opti.debug.value(expr, opti_initial)), expr.shape) # one column per node
+                    if value.shape[0]==1 and var.is_column() and not var.is_scalar(): value = repmat(value, var.shape[0], 1)
 
             if is_states:
                 target_integrator = ca.hcat([self.eval_at_integrator(stage, var, k, i) for k in list(range(self.N)) for i in range(self.M)]+[self.eval_at_control(stage, var, -1)])
